@@ -28,7 +28,7 @@
 
   No further condition: the four defects that used to be excluded here as `KnownDefectFree` (package name a
   Go keyword or `main`, imports chosen by substring tests, `@IMPORTS@` inside the interface documentation)
-  have been repaired in the generator (dfa0aa0, a32447a, a04eec4) and their guards removed.
+  have been repaired in the generator (30ae85f, 764942c, 2a8a008) and their guards removed.
 -/
 import Varlink.Gen.View
 import Varlink.Gen.Check
